@@ -55,6 +55,9 @@ type Spec struct {
 	// Resync, when set, makes this a case of the resync stream (resync.go): one stub
 	// value registering several times; the fields above are then unused.
 	Resync *ResyncSpec `json:"resync,omitempty"`
+	// Multi, when set, makes this a case of the multi stream: the listed plugin ends register one after
+	// the other on ONE Adaptation, each against its own state; the fields above are then unused.
+	Multi []*Spec `json:"multi,omitempty"`
 	// StallS is set by the driver: seconds without a Synchronize message and without a result after
 	// which a synchronisation counts as stalled (driver.go: stallBound).
 	StallS int `json:"stall_s,omitempty"`
@@ -349,7 +352,7 @@ func (p *rawPlugin) StateChange(_ context.Context, evt *api.StateChangeEvent) (*
 
 // startRaw connects the way pkg/stub does: trunk, mux, plugin service on the
 // plugin connection, runtime client on the runtime connection, RegisterPlugin.
-func startRaw(sock string, rec *recorder) (func(), error) {
+func startRaw(sock, name string, rec *recorder) (func(), error) {
 	conn, err := net.Dial("unix", sock)
 	if err != nil {
 		return nil, err
@@ -381,7 +384,7 @@ func startRaw(sock string, rec *recorder) (func(), error) {
 	}
 	ctx, cancel := context.WithTimeout(context.Background(), regTimeout)
 	defer cancel()
-	if _, err := api.NewRuntimeClient(client).RegisterPlugin(ctx, &api.RegisterPluginRequest{PluginName: "raw", PluginIdx: "10"}); err != nil {
+	if _, err := api.NewRuntimeClient(client).RegisterPlugin(ctx, &api.RegisterPluginRequest{PluginName: name, PluginIdx: "10"}); err != nil {
 		// the caller decides: when the synchronisation has failed meanwhile, the runtime has closed
 		// the connection, possibly before the answer to RegisterPlugin was read (errRegister)
 		return stop, fmt.Errorf("%w: %v", errRegister, err)
@@ -418,7 +421,7 @@ func (p *stubPlugin) RunPodSandbox(_ context.Context, pod *api.PodSandbox) error
 	return nil
 }
 
-func startStub(sock string, rec *recorder) (func(), error) {
+func startStub(sock, name string, rec *recorder) (func(), error) {
 	// every Synchronize message is logged before the stub sees it
 	icpt := func(ctx context.Context, unmarshal ttrpc.Unmarshaler, info *ttrpc.UnaryServerInfo, method ttrpc.Method) (interface{}, error) {
 		if !strings.HasSuffix(info.FullMethod, "/Synchronize") {
@@ -438,7 +441,7 @@ func startStub(sock string, rec *recorder) (func(), error) {
 		return method(ctx, um)
 	}
 	st, err := stub.New(&stubPlugin{rec: rec},
-		stub.WithSocketPath(sock), stub.WithPluginName("stub"), stub.WithPluginIdx("10"),
+		stub.WithSocketPath(sock), stub.WithPluginName(name), stub.WithPluginIdx("10"),
 		stub.WithOnClose(func() {}),
 		stub.WithTTRPCOptions(nil, []ttrpc.ServerOpt{ttrpc.WithUnaryServerInterceptor(icpt)}))
 	if err != nil {
@@ -520,22 +523,30 @@ type syncResult struct {
 }
 
 func runCase(dir string, k int, sp *Spec) (*Obs, error) {
-	t0 := time.Now()
-	pods, ctrs := buildState(sp)
-	o := &Obs{Hdr: hdrLen(), Limit: maxMsgLen(), MoreCost: proto.Size(&api.SynchronizeRequest{More: true}),
-		WP: make([]int, len(pods)), WC: make([]int, len(ctrs)), Msgs: []Msg{}, GotUpd: []int{}}
-	for i, p := range pods {
-		o.WP[i] = proto.Size(&api.SynchronizeRequest{Pods: []*api.PodSandbox{p}})
+	obs, err := runSeq(dir, k, []*Spec{sp})
+	if err != nil {
+		return nil, err
 	}
-	for i, c := range ctrs {
-		o.WC[i] = proto.Size(&api.SynchronizeRequest{Containers: []*api.Container{c}})
-	}
+	return obs[0], nil
+}
 
+// runSeq runs the registrations of specs one after the other on ONE adaptation.Adaptation, every
+// plugin end staying connected until the end; registration j is synchronised against the state of
+// specs[j].  The list of observations is shorter than specs when a registration stalled.
+func runSeq(dir string, k int, specs []*Spec) ([]*Obs, error) {
 	sock := filepath.Join(dir, fmt.Sprintf("s%d.sock", k))
 	defer os.Remove(sock)
+	var (
+		stateLock sync.Mutex
+		pods      []*api.PodSandbox
+		ctrs      []*api.Container
+	)
 	done := make(chan syncResult, 4)
 	syncFn := func(ctx context.Context, cb adaptation.SyncCB) error {
-		upd, err := cb(ctx, pods, ctrs)
+		stateLock.Lock()
+		ps, cs := pods, ctrs
+		stateLock.Unlock()
+		upd, err := cb(ctx, ps, cs)
 		done <- syncResult{upd, err}
 		return err
 	}
@@ -550,8 +561,14 @@ func runCase(dir string, k int, sp *Spec) (*Obs, error) {
 		return nil, fmt.Errorf("adaptation.Start: %w", err)
 	}
 	poisoned := false // a goroutine of the runtime is left spinning: no orderly shutdown, the worker exits
+	var stops []func()
 	defer func() {
 		if !poisoned {
+			for i := len(stops) - 1; i >= 0; i-- {
+				if stops[i] != nil {
+					stops[i]()
+				}
+			}
 			r.Stop()
 		}
 	}()
@@ -561,81 +578,101 @@ func runCase(dir string, k int, sp *Spec) (*Obs, error) {
 	default:
 	}
 
-	rec := &recorder{sp: sp, bound: 2*(len(pods)+len(ctrs)) + 1}
-	lastMsg := func() time.Time {
-		rec.Lock()
-		defer rec.Unlock()
-		return rec.last
-	}
-	cleanup := func(stop func()) {
-		if !poisoned && stop != nil {
-			stop()
+	var out []*Obs
+	for j, sp := range specs {
+		t0 := time.Now()
+		ps, cs := buildState(sp)
+		o := &Obs{Hdr: hdrLen(), Limit: maxMsgLen(), MoreCost: proto.Size(&api.SynchronizeRequest{More: true}),
+			WP: make([]int, len(ps)), WC: make([]int, len(cs)), Msgs: []Msg{}, GotUpd: []int{}}
+		for i, p := range ps {
+			o.WP[i] = proto.Size(&api.SynchronizeRequest{Pods: []*api.PodSandbox{p}})
 		}
-	}
-	var stop func()
-	if sp.Plugin == "stub" {
-		stop, err = startStub(sock, rec)
-	} else {
-		stop, err = startRaw(sock, rec)
-	}
-	var res syncResult
-	if err != nil {
-		if !errors.Is(err, errRegister) {
-			return nil, fmt.Errorf("plugin start: %w", err)
+		for i, c := range cs {
+			o.WC[i] = proto.Size(&api.SynchronizeRequest{Containers: []*api.Container{c}})
 		}
-		defer cleanup(stop)
-		select {
-		case res = <-done:
-			if res.err == nil {
-				return nil, fmt.Errorf("plugin start: %w (although the synchronisation succeeded)", err)
-			}
-			o.RegReplyLost = true
-		case <-time.After(regTimeout):
-			return nil, fmt.Errorf("plugin start: %w (and no synchronisation result)", err)
-		}
-	} else {
-		defer cleanup(stop)
-		var stalled bool
-		if res, stalled = waitSync(done, lastMsg, stallOf(sp.StallS)); stalled {
-			// the runtime is still inside synchronize: nothing more can be asked of it
-			poisoned = true
-			rec.Lock()
-			o.Msgs = append(o.Msgs, rec.msgs...)
-			o.HandlerCalls, o.HandlerPodRuns, o.HandlerCtrRuns, o.Invocations = rec.calls, rec.hpr, rec.hcr, append([]HCall{}, rec.invs...)
-			rec.Unlock()
-			o.Outcome, o.StallS, o.Exit = "stalled", int(stallOf(sp.StallS).Seconds()), true
-			o.Millis = time.Since(t0).Milliseconds()
-			return o, nil
-		}
-	}
-	// registration is finished (plugin appended or dropped) once the sync lock is free again
-	o.Usable, o.UsableBoundS = syncLockFree(r)
-	ctx, cancel := context.WithTimeout(context.Background(), regTimeout)
-	perr := r.RunPodSandbox(ctx, &api.StateChangeEvent{Pod: &api.PodSandbox{Id: "probe"}})
-	cancel()
-	if perr != nil {
-		return nil, fmt.Errorf("probe event: %w", perr)
-	}
+		stateLock.Lock()
+		pods, ctrs = ps, cs
+		stateLock.Unlock()
+		out = append(out, o)
 
-	rec.Lock()
-	defer rec.Unlock()
-	o.Msgs = append(o.Msgs, rec.msgs...)
-	o.HandlerCalls, o.HandlerPodRuns, o.HandlerCtrRuns, o.Invocations = rec.calls, rec.hpr, rec.hcr, append([]HCall{}, rec.invs...)
-	o.Active = rec.probe
-	switch {
-	case rec.livelock:
-		o.Outcome = "livelock"
-	case res.err != nil:
-		o.Outcome = "failed"
-		o.SyncErr = res.err.Error()
-	default:
-		o.Outcome = "delivered"
+		rec := &recorder{sp: sp, bound: 2*(len(ps)+len(cs)) + 1}
+		lastMsg := func() time.Time {
+			rec.Lock()
+			defer rec.Unlock()
+			return rec.last
+		}
+		name := sp.Plugin
+		if len(specs) > 1 {
+			name = fmt.Sprintf("%s%d", sp.Plugin, j+1)
+		}
+		var stop func()
+		if sp.Plugin == "stub" {
+			stop, err = startStub(sock, name, rec)
+		} else {
+			stop, err = startRaw(sock, name, rec)
+		}
+		var res syncResult
+		if err != nil {
+			if !errors.Is(err, errRegister) {
+				return nil, fmt.Errorf("registration %d: plugin start: %w", j+1, err)
+			}
+			stops = append(stops, stop)
+			select {
+			case res = <-done:
+				if res.err == nil {
+					return nil, fmt.Errorf("registration %d: plugin start: %w (although the synchronisation succeeded)", j+1, err)
+				}
+				o.RegReplyLost = true
+			case <-time.After(regTimeout):
+				return nil, fmt.Errorf("registration %d: plugin start: %w (and no synchronisation result)", j+1, err)
+			}
+		} else {
+			stops = append(stops, stop)
+			var stalled bool
+			if res, stalled = waitSync(done, lastMsg, stallOf(sp.StallS)); stalled {
+				// the runtime is still inside synchronize: nothing more can be asked of it
+				poisoned = true
+				rec.Lock()
+				o.Msgs = append(o.Msgs, rec.msgs...)
+				o.HandlerCalls, o.HandlerPodRuns, o.HandlerCtrRuns, o.Invocations = rec.calls, rec.hpr, rec.hcr, append([]HCall{}, rec.invs...)
+				rec.Unlock()
+				o.Outcome, o.StallS, o.Exit = "stalled", int(stallOf(sp.StallS).Seconds()), true
+				o.Millis = time.Since(t0).Milliseconds()
+				return out, nil
+			}
+		}
+		// registration is finished (plugin appended or dropped) once the sync lock is free again
+		o.Usable, o.UsableBoundS = syncLockFree(r)
+		ctx, cancel := context.WithTimeout(context.Background(), regTimeout)
+		perr := r.RunPodSandbox(ctx, &api.StateChangeEvent{Pod: &api.PodSandbox{Id: "probe"}})
+		cancel()
+		if perr != nil {
+			return nil, fmt.Errorf("registration %d: probe event: %w", j+1, perr)
+		}
+
+		rec.Lock()
+		o.Msgs = append(o.Msgs, rec.msgs...)
+		o.HandlerCalls, o.HandlerPodRuns, o.HandlerCtrRuns, o.Invocations = rec.calls, rec.hpr, rec.hcr, append([]HCall{}, rec.invs...)
+		o.Active = rec.probe
+		switch {
+		case rec.livelock:
+			o.Outcome = "livelock"
+		case res.err != nil:
+			o.Outcome = "failed"
+			o.SyncErr = res.err.Error()
+		default:
+			o.Outcome = "delivered"
+		}
+		rec.Unlock()
+		for _, u := range res.upd {
+			o.GotUpd = append(o.GotUpd, parseID('c', u.GetContainerId()))
+		}
+		o.Millis = time.Since(t0).Milliseconds()
+		if !o.Usable {
+			break // the next registration would only block behind the plugin-sync lock
+		}
 	}
-	for _, u := range res.upd {
-		o.GotUpd = append(o.GotUpd, parseID('c', u.GetContainerId()))
-	}
-	o.Millis = time.Since(t0).Milliseconds()
-	return o, nil
+	return out, nil
 }
 
 type silent struct{}
@@ -669,10 +706,12 @@ func workerMain() {
 		var reply struct {
 			Obs   *Obs       `json:"obs,omitempty"`
 			RObs  *ResyncObs `json:"robs,omitempty"`
+			MObs  []*Obs     `json:"mobs,omitempty"`
 			Error string     `json:"error,omitempty"`
 		}
 		var probe struct {
 			Resync *ResyncSpec `json:"resync"`
+			Multi  []*Spec     `json:"multi"`
 			StallS int         `json:"stall_s"`
 		}
 		if e := json.Unmarshal(line, &probe); e == nil && probe.Resync != nil {
@@ -682,6 +721,17 @@ func workerMain() {
 				reply.Error = e.Error()
 			} else {
 				reply.RObs = o
+			}
+		} else if e == nil && len(probe.Multi) > 0 {
+			for _, m := range probe.Multi {
+				m.expand()
+				m.StallS = probe.StallS
+			}
+			o, e := runSeq(dir, k, probe.Multi)
+			if e != nil {
+				reply.Error = e.Error()
+			} else {
+				reply.MObs = o
 			}
 		} else if e := json.Unmarshal(line, &sp); e != nil {
 			reply.Error = "bad spec: " + e.Error()
@@ -698,7 +748,7 @@ func workerMain() {
 		out.Write(js)
 		out.WriteByte('\n')
 		out.Flush()
-		if (reply.Obs != nil && reply.Obs.Exit) || (reply.RObs != nil && reply.RObs.Exit) {
+		if (reply.Obs != nil && reply.Obs.Exit) || (reply.RObs != nil && reply.RObs.Exit) || (len(reply.MObs) > 0 && reply.MObs[len(reply.MObs)-1].Exit) {
 			os.RemoveAll(dir)
 			os.Exit(0)
 		}
